@@ -19,7 +19,10 @@ LEAN_MODULES = ["Clikit.Props.C17"]
 REQUIRED_THEOREMS = ["Clikit.Props.C17." + n for n in (
     "help_restores", "run_restores", "history_independent", "parser_history_independent", "style_noninterference",
     "factories_copy", "d20_aliasing_interferes", "style_noninterference_of_copies", "makeStyle_fresh",
-    "styles_wf_decides", "refs_fresh", "refs_fresh_source", "style_noninterference_dec", "style_noninterference_after")]
+    "styles_wf_decides", "refs_fresh", "refs_fresh_source", "style_noninterference_dec", "style_noninterference_after",
+    # history independence on the stateful composed application model (Model/AppState.lean)
+    "app_run_restores_state", "app_run_keeps_configured", "app_run_stateless", "app_history_results",
+    "app_run_history_independent", "app_reused_eq_fresh", "d21_protocol_history_dependent")]
 TECHNIQUE = ("Lean 4 theorems over the two hidden-state protocols read from the source on every run (help resolver's "
              "leniency save/restore, table-style factories copying cached border styles) + C05 for the parser; differential "
              "histories on one real application vs fresh ones, style construction orders, render-twice")
@@ -33,25 +36,56 @@ LEVEL_TEXT = ("How HelpResolver.create_resolved_command restores the leniency it
               "factories); every created style owns a FRESH border object (refs_fresh_source: heap object 3 + j for the j-th style), "
               "which is also read off the real objects by identity and compared on every styles case (entry c17.styles_wf), so the "
               "reference `q` of the theorem is the border object of the real style. That no OTHER hidden state exists in the real objects is what the differential histories "
-              "(one application vs fresh ones, same process) and the style-order / render-twice runs explore.")
+              "(one application vs fresh ones, same process) and the style-order / render-twice runs explore. "
+              "On the COMPOSED model of a whole run (Model/App.lean runApp, the model of C04/C09 tied to ConsoleApplication.run) the "
+              "hidden state is made explicit (Model/AppState.lean): runAppS threads, per command, the leniency setting as configured "
+              "and as it is now (read by every Command.parse without explicit mode, toggled by the help resolver with the protocol "
+              "read from the source) and, per installed parser object (Config.set_args_parser, possibly shared by commands), the "
+              "scratch dictionaries its last parse left (C05's parseFrom). Proved for EVERY command tree, handler assignment, "
+              "conversion table, configuration of settings and parser objects, history of command lines and final line: every run "
+              "leaves every setting as it found it on every exit path (app_run_restores_state), a run on an application whose "
+              "settings are the configured ones is the pure runApp whatever the parser objects hold (app_run_stateless), hence the "
+              "run after any history equals the pure run (app_run_history_independent) and a re-used application equals a fresh "
+              "one (app_reused_eq_fresh, no hypothesis); with the pre-repair protocol of D21 a failing help request provably "
+              "changes the next run (d21_protocol_history_dependent). The stateful model is run through every generated history "
+              "(entry c17.app_hist, on the tree, settings and parser wiring read from the real application) and compared with the "
+              "runs of the real REUSED application: status, what happened, the command and arguments selected, the handler calls "
+              "with their arguments, and the _lenient_args_parsing of every command's config after every run.")
 LEVEL_NOTE = ("Trusted: Lean kernel + standard axioms; tools/genparts/c17.py (AST matching of the try/finally and of the "
               "factories); the hand-written state model (only leniency + parser scratch + border heap are modelled: other "
               "state would be invisible to the theorems and is looked for by the history runs); harness. Render-twice "
-              "idempotence is a comparison, not a theorem.")
+              "idempotence is a comparison, not a theorem. Model/AppState.lean (the state-threading re-statement of the resolver "
+              "loops is proved equal to the originals; WHICH state the real objects keep is the modelling decision, sampled by "
+              "c17.app_hist and by the reused-vs-fresh runs).")
 RULE = ("proto: 3 settings x inner ok/raises (exhaustive); styles: all op sequences of length <= 3 (quick) / 4 (thorough) over "
         "4 factories + customisations, plus random to length 8; hist: generated trees + a fixed probe command, sequences of "
         "2-6 lines from {valid, too many arguments, unknown option, unconvertible value, help in both spellings (also "
-        "combined with a failing value), version, unknown command}; twice: tables x 4 styles, help pages, traces; "
+        "combined with a failing value), version, unknown command}, each also run through the stateful composed model; "
+        "twice: tables x 4 styles, help pages, traces; "
         "non-trivial = styles/hist cases of length >= 2; distinct = the case")
 TRUSTED_BASE = [
     "Lean 4.33 kernel; axioms within propext, Classical.choice, Quot.sound (audited per theorem on every run)",
     "tools/genparts/c17.py: what create_resolved_command restores and where; which factories copy; the border field tables",
     "lean/Clikit/Model/History.lean: the modelled hidden state (leniency per command, border-style heap); C05 for the parser object",
     "harness/props/c17.py: history generator, fresh-vs-reused comparison, style op interpreter",
+    "lean/Clikit/Model/AppState.lean: the stateful composed application model (leniency settings per command, scratch state "
+    "per installed parser object, the help resolver's toggle) on top of Model/App.lean; tied by c17.app_hist on every history",
 ]
 ASSUMPTIONS = [
     "hidden state other than the modelled one is searched for by differential histories, not excluded by proof",
     "render-twice idempotence is checked on generated components, not proved",
+    "stateful composed model (runAppS): the state of an application object is taken to be the leniency setting of every "
+    "command's config plus the scratch dictionaries of parser objects installed with set_args_parser; commands are identified "
+    "by their name path (sibling commands with the same name are not generated); the tree's `lenient` field is the effective "
+    "leniency under the CONFIGURED setting (the tree is extracted before any run), so a setting equal to the configured one "
+    "reads that field, an explicit other value reads the value, and None over an explicit configured value (never written "
+    "by any protocol: helpCreateP_none) reads the base default False",
+    "c17.app_hist: every handler returns 0 - `_H` does; the `counter` command's handler is made by a FACTORY, a new object per "
+    "run, so its status len(seen) - 1 is 0 and its printed line shows an empty history (checked on every run: the handler "
+    "call of `counter` is accepted only with that line); a handler OBJECT keeping state of its own is outside the model; the "
+    "`lenient` command (configured True) and the shared parser object (`shared_parser`) are modelled, nothing is excluded; "
+    "the error class of a failing run and the help page shown are not compared here (c09.app_run / C13 do), the scratch "
+    "dictionaries of the real parser object are not read (results only, as C05)",
 ]
 BATCH = 400
 
@@ -176,6 +210,9 @@ class _H(object):
                       sorted((k, repr(v)) for k, v in args.arguments().items()),
                       sorted((k, repr(v)) for k, v in args.options().items()),
                       sorted((k, repr(args.option(k)), args.is_option_set(k)) for k in args.options())])
+        # appended for the composed model (c17.app_hist): the SET arguments / options in the canonical encoding
+        CALLS[-1].append({"args_set": sorted([[k, pc.enc(v)] for k, v in args.arguments(False).items()]),
+                          "opts_set": sorted([[k, pc.enc(v)] for k, v in args.options(False).items()])})
         io.write_line("ran " + " ".join(self.path))
         return 0
 
@@ -238,6 +275,109 @@ def _hist(case):
     reused = [_run(app, l) for l in case["lines"]]
     fresh = [_run(_new_app(case["tree"], sp), l) for l in case["lines"]]
     return {"reused": reused, "fresh": fresh}
+
+
+# ---- the tie to the stateful composed model (Model/AppState.lean, entry c17.app_hist) -----------------------------
+def _walk_cmds(app):
+    """(name path, Command) of every enabled command of a real application, parents first"""
+    out = []
+
+    def walk(cmd, path):
+        path = path + [cmd.name]
+        out.append((path, cmd))
+        for s in cmd.sub_commands:
+            walk(s, path)
+    for c in app.commands:
+        walk(c, [])
+    return out
+
+
+def _state_of(app):
+    """the hidden state the model carries, read off the REAL application: `_lenient_args_parsing` of every command's
+    config (None / True / False) and which parser OBJECT is installed where (numbered by identity)"""
+    raw, parsers, objs = [], [], []
+    for path, cmd in _walk_cmds(app):
+        raw.append([path, cmd.config._lenient_args_parsing])
+        po = cmd.config._args_parser
+        if po is not None:
+            k = next((i for i, o in enumerate(objs) if o is po), None)
+            if k is None:
+                objs.append(po)
+                k = len(objs) - 1
+            parsers.append([path, k])
+    return raw, parsers
+
+
+def _hist_probed(case):
+    """the history once more on ONE application that carries a late PRE_HANDLE listener (it runs after the default
+    ones and touches nothing): per run the command and args selected, whether the version listener handled the
+    event, and the leniency setting of every command AFTER the run"""
+    from clikit.api.event import PRE_HANDLE
+    sp = bool(case.get("shared_parser"))
+    app = _new_app(case["tree"], sp)
+    probe = {}
+
+    def pre_handle(event, name, dispatcher):
+        a = event.args
+        probe["selected"] = {"path": ac.path_of(event.command),
+                             "args_set": sorted([[k, pc.enc(v)] for k, v in a.arguments(False).items()]),
+                             "opts_set": sorted([[k, pc.enc(v)] for k, v in a.options(False).items()])}
+        probe["handled"] = bool(event.is_handled())
+    app.config.add_event_listener(PRE_HANDLE, pre_handle, -10)
+    configured = _state_of(app)[0]
+    runs = []
+    for line in case["lines"]:
+        probe.clear()
+        r = _run(app, line)
+        runs.append({"status": r["status"], "out": r["out"], "calls": r["calls"], "selected": probe.get("selected"),
+                     "handled": probe.get("handled"), "len": _state_of(app)[0]})
+    return {"configured": configured, "runs": runs}
+
+
+def _hist_tied(case):
+    obs = _hist(case)
+    obs["tied"] = _hist_probed(case)
+    return obs
+
+
+def _invoked_of(run):
+    """the handlers that ran with the arguments they got, from what the handlers themselves recorded (`_H`: CALLS,
+    canonical encoding appended to every record; `_Counting`: the line it prints shows its argument and that its
+    `seen` list was empty, i.e. the factory made a new handler object for this run)"""
+    inv = []
+    for c in run["calls"]:
+        inv.append({"path": list(c[0]), "args_set": c[-1]["args_set"], "opts_set": c[-1]["opts_set"]})
+    sel = run.get("selected")
+    if sel is not None and sel["path"] == ["counter"] and not run.get("handled"):
+        a = dict((k, pc.dec(v)) for k, v in sel["args_set"]).get("a")
+        if run["out"] == "seen so far: %r\n" % ([a],):
+            inv.append(sel)
+    return inv
+
+
+def _kind_of(run):
+    if run["selected"] is None:
+        return "error"                      # PRE_HANDLE was not reached: resolve_command raised
+    if run["handled"]:
+        return "version"
+    if run["selected"]["path"] == ["help"]:
+        return "help" if run["status"] == 0 else "error"     # HelpTextHandler returned / raised
+    return "ran"
+
+
+def _hist_view(obs):
+    """what the stateful model is compared with: the runs of the REUSED application of `_hist` (status, handler calls)
+    and of the probed one (status, handler calls, selection, kind, settings after the run)"""
+    t = obs["tied"]
+    runs = []
+    for r0, r in zip(obs["reused"], t["runs"]):
+        runs.append({"status": r0["status"], "status_probed": r["status"],
+                     "invoked": [x for x in _invoked_of(dict(r, calls=r0["calls"], out=r0["out"]))],
+                     "invoked_probed": _invoked_of(r),
+                     "kind": _kind_of(r),
+                     "selected": {"ok": r["selected"]} if r["selected"] is not None else "err",
+                     "len": r["len"], "restored": r["len"] == t["configured"]})
+    return {"runs": runs}
 
 
 def _twice(case):
@@ -336,7 +476,7 @@ def _twice(case):
 
 
 def run_impl(case):
-    return {"proto": _proto, "styles": _styles, "hist": _hist, "twice": _twice}[case["k"]](case)
+    return {"proto": _proto, "styles": _styles, "hist": _hist_tied, "twice": _twice}[case["k"]](case)
 
 
 # ---- model side ------------------------------------------------------------------------------------
@@ -353,7 +493,35 @@ def model_requests(case):
                 j, f, v = op["custom"]
                 ops.append({"custom": [3 + j, f, v]})     # the j-th created style owns heap object 3 + j (checked: "wf")
         return [{"m": "c17.styles", "ops": ops}, {"m": "c17.styles_wf", "ops": ops}]
+    if case["k"] == "hist":
+        return _hist_requests(case)
     return []
+
+
+def _hist_requests(case):
+    # the stateful composed model gets the command tree, the configured leniency settings and the installed parser
+    # objects from the REAL application (as c09.app_run gets the tree)
+    app = _new_app(case["tree"], bool(case.get("shared_parser")))
+    nodes = ac.extract_app(app)
+    raw, parsers = _state_of(app)
+    ints, floats = pc.conv_tables(ac.all_texts(nodes, [t for l in case["lines"] for t in l]))
+    return [{"m": "c17.app_hist", "commands": nodes, "lines": case["lines"], "ints": ints, "floats": floats,
+             "raw": raw, "parsers": parsers}]
+
+
+def _sel(o):
+    return {"path": o["path"], "args_set": sorted(o["args_set"]), "opts_set": sorted(o["opts_set"])}
+
+
+def _hist_model_view(answer):
+    runs = []
+    for r in answer:
+        inv = [_sel(x) for x in r["invoked"]]
+        runs.append({"status": r["status"], "status_probed": r["status"], "invoked": inv, "invoked_probed": inv,
+                     "kind": r["what"]["kind"],
+                     "selected": {"ok": _sel(r["selected"]["ok"])} if "ok" in r["selected"] else "err",
+                     "len": r["len"], "restored": r["restored"]})
+    return {"runs": runs}
 
 
 def model_obs(case, answers):
@@ -362,6 +530,8 @@ def model_obs(case, answers):
     if case["k"] == "styles":
         made = len([op for op in case["ops"] if "make" in op])
         return {"borders": answers[0][3:3 + made], "wf": answers[1]}
+    if case["k"] == "hist":
+        return _hist_model_view(answers[0])
     return {}
 
 
@@ -376,6 +546,8 @@ def impl_view(case, obs):
         made = len(obs["borders"])
         return {"borders": obs["borders"],
                 "wf": {"copies": obs["refs"] == list(range(3, 3 + made)), "refs": obs["refs"]}}
+    if case["k"] == "hist":
+        return _hist_view(obs)
     return {}
 
 
